@@ -86,6 +86,7 @@ static int bl_typed(carquet_bloom_filter_t* f, const char* ty, const char* hex, 
  *   w:K:CAP      write into a buffer of exactly CAP bytes -> w=ok:HEX | w=err
  *   r:D:S        write S into an exact buffer, read it into D -> r=ok|err
  *   rb:D:HEX     read from the given bytes -> rb=ok|err
+ *   x:K          destroy the filter of slot K -> x
  *   d:K          dump -> d=BYTES/BLOCKS/HEX                                            */
 static void do_bloom(char* line) {
     fputs("OK", stdout);
@@ -99,6 +100,7 @@ static void do_bloom(char* line) {
         putchar(' ');
         if ((!strcmp(o, "c") && nf == 3) || (!strcmp(o, "cn") && nf == 4)) {
             carquet_bloom_filter_t* g;
+            bl_set(k, NULL);       /* destroy first: the allocator may hand the same address to the new filter */
             if (o[1] == 0) g = carquet_bloom_filter_create((size_t)strtoull(fld[2], NULL, 16));
             else { uint64_t bits = strtoull(fld[3], NULL, 16); double fpp; memcpy(&fpp, &bits, 8);
                    g = carquet_bloom_filter_create_with_ndv((int64_t)strtoll(fld[2], NULL, 10), fpp); }
@@ -107,6 +109,9 @@ static void do_bloom(char* line) {
             else printf("%s=%zx/%zx", o, carquet_bloom_filter_size(g), carquet_bloom_filter_num_blocks(g));
         } else if (!f && strcmp(o, "r") && strcmp(o, "rb")) {
             printf("%s=noslot", o);
+        } else if (!strcmp(o, "x") && nf == 2) {
+            bl_set(k, NULL);
+            fputs("x", stdout);
         } else if (!strcmp(o, "i") && nf == 4) {
             int r = bl_typed(f, fld[2], fld[3], 1, (size_t)(opno % 8));
             fputs(r == -2 ? "i=badtype" : "i", stdout);
@@ -219,6 +224,27 @@ int main(void) {
                 first = 0; off += chunk;
             }
             printf("OK %x %x %x\n", c, (uint32_t)z, u);
+            munmap(p, n);
+        } else if (!strcmp(h_tok[0], "xxhbig") && h_ntok == 3) {
+            /* xxhbig <length decimal> <seed hex>: one carquet_xxhash64 call on a buffer of 2^32 bytes or more
+               (mostly untouched zero pages with some bytes set, head and tail included) against libxxhash's
+               streaming API fed in 1 GiB pieces */
+            size_t n = (size_t)strtoull(h_tok[1], NULL, 10); uint64_t seed = strtoull(h_tok[2], NULL, 16);
+            uint8_t* p = mmap(NULL, n, PROT_READ | PROT_WRITE, MAP_PRIVATE | MAP_ANONYMOUS | MAP_NORESERVE, -1, 0);
+            if (p == MAP_FAILED) { puts("ERR mmap"); fflush(stdout); continue; }
+            unsigned sd = (unsigned)seed | 1u;
+            for (int k = 0; k < 64; k++) { sd = sd * 1103515245u + 12345u; size_t pos = ((size_t)sd * 2654435761u) % n; p[pos] = (uint8_t)(sd >> 16) | 1; }
+            for (size_t k = 0; k < 40 && k < n; k++) { p[k] = (uint8_t)(0xa5 + k); p[n - 1 - k] = (uint8_t)(0x5a ^ k); }
+            uint64_t c = carquet_xxhash64(p, n, seed);
+            XXH64_state_t* st = XXH64_createState();
+            XXH64_reset(st, (XXH64_hash_t)seed);
+            for (size_t off = 0; off < n; ) {
+                size_t chunk = n - off; if (chunk > ((size_t)1 << 30)) chunk = (size_t)1 << 30;
+                XXH64_update(st, p + off, chunk); off += chunk;
+            }
+            uint64_t x = (uint64_t)XXH64_digest(st);
+            XXH64_freeState(st);
+            printf("OK %" PRIx64 " %" PRIx64 "\n", c, x);
             munmap(p, n);
         } else if (!strcmp(h_tok[0], "crcgen") && h_ntok == 5) {
             /* crcgen <length> <seed> <align> <split>: driver-generated pseudo-random contents in an exact-size
